@@ -450,11 +450,19 @@ fn fault_case(rep: &mut Report, solver: Solver, prob: &IvpProblem, cfg: &Cfg, mo
     let ref_pts = reference.ok_points();
     let mut k = 1;
     while k <= n {
-        let opts = Opts { fail_at: Some(k), ..base.clone() };
+        // the value the failing call returns: mostly the harness's own error type carrying k; every
+        // fourth fault point returns a boxed solver status instead (what a derivative that drives a nested
+        // stepper forwards with `?`): Done, Redo or Failure(MinimumTimeDeltaExceeded) - the user's error all the same
+        let payload: u8 = if k % 4 == 2 { 1 + ((k / 4) % 3) as u8 } else { 0 };
+        let want = if payload == 0 { k } else { STATUS_PAYLOAD + payload as u64 };
+        if payload != 0 {
+            rep.count(&format!("{}/fault_points_with_a_solver_status_as_error_value", sname), 1);
+        }
+        let opts = Opts { fail_at: Some(k), fail_payload: payload, ..base.clone() };
         let out = solve_real(solver, cfg, &prob.y0, prob, &opts);
         rep.eval();
         rep.count(&format!("{}/fault_points", sname), 1);
-        let case = || case0().set("fail_at_call", k).set("reference_calls", n);
+        let case = || case0().set("fail_at_call", k).set("reference_calls", n).set("error_value_returned_by_the_failing_call", ["the harness's error type Boom(k)", "boxed IVPStatus::Done", "boxed IVPStatus::Redo", "boxed IVPStatus::Failure(MinimumTimeDeltaExceeded)"][payload as usize]);
         let mut ok = true;
         if let Some((m, l)) = &out.panic {
             rep.violation(&format!("fault/{}/panic", sname), case(), format!("panicked with a failing derivative: {} at {}", m, l));
@@ -476,9 +484,9 @@ fn fault_case(rep: &mut Report, solver: Solver, prob: &IvpProblem, cfg: &Cfg, mo
                 ok = false;
             } else {
                 match out.items.last() {
-                    Some(Item::Err(ErrKind::User(_, Some(kk)))) if *kk == k => {}
+                    Some(Item::Err(ErrKind::User(_, Some(kk)))) if *kk == want => {}
                     Some(Item::Err(e)) => {
-                        rep.violation(&format!("fault/{}/err-does-not-carry-user-error", sname), case(), format!("the Err item is {} instead of UserError(Boom({}))", e.short(), k));
+                        rep.violation(&format!("fault/{}/err-does-not-carry-user-error", sname), case(), format!("the Err item is {} instead of UserError(<the value the failing call {} returned>)", e.short(), k));
                         ok = false;
                     }
                     _ => {}
@@ -520,7 +528,7 @@ fn fault_case(rep: &mut Report, solver: Solver, prob: &IvpProblem, cfg: &Cfg, mo
             let o2 = solve_real(solver, cfg, &prob.y0, prob, &Opts { collect_vec: true, ..opts.clone() });
             rep.eval();
             match o2.items.as_slice() {
-                [Item::Err(ErrKind::User(_, Some(kk)))] if *kk == k => {}
+                [Item::Err(ErrKind::User(_, Some(kk)))] if *kk == want => {}
                 other => {
                     rep.violation(
                         &format!("fault/{}/collect-vec", sname),
